@@ -136,6 +136,7 @@ class H2Peer:
         self.server_settings_seen = False
         self.stalled: Optional[Tuple[int, int, int, int, bool]] = None
         self.ws_pending: Dict[int, bytearray] = {}
+        self.feeding = False
         self.methods: Dict[int, str] = {}
         if upgrade_rid is not None:
             self.conn.initiate_upgrade_connection()
@@ -221,8 +222,11 @@ class H2Peer:
         op = st["op"]
         log = self.sess.trace.log
         chunks: List[bytes] = []
+        started = False
         if not self.sent_preface:
             chunks += self.start()
+            started = True
+            self.feeding = True
         after: List[Any] = []
         try:
             if op == "preface":
@@ -319,6 +323,9 @@ class H2Peer:
             pieces = [data] if data else []
         self._after = after
         self._npieces = len(pieces)
+        self.feeding = len(pieces) >= 1
+        if started:
+            self.after_start()
         return [p for p in pieces]
 
     def fed(self, index: int, n: int) -> None:
@@ -331,6 +338,7 @@ class H2Peer:
             for rid, upd in self._after:
                 self._log_progress(rid, n, **upd)
             self._after = []
+            self.flush_replies()
         else:
             self.sess.trace.log("c_send", upto=0, n=n, reqs=[], cerr=False)
 
@@ -426,8 +434,16 @@ class H2Peer:
                 self._resume_upload()
             for sid in list(self.ws_pending):
                 self._pump_ws(sid)
+        if self.feeding:
+            return  # in the middle of writing a frame sequence: replies follow once it is out
         reply = self._flush()
         if reply and not self.sess.env.client_is_gone:
+            self.sess.env.feed(reply)
+
+    def flush_replies(self) -> None:
+        self.feeding = False
+        reply = self._flush()
+        if reply and not self.sess.env.client_is_gone and not self.sess.env.server_closed:
             self.sess.env.feed(reply)
 
     def _resume_upload(self) -> None:
